@@ -45,6 +45,7 @@ func main() {
 		{"MatchGen.v", genMatch},
 		{"TmsData.v", genTmsData},
 		{"CliGen.v", genCli},
+		{"RingHelpersGen.v", genRingHelpers},
 	}
 	failed := false
 	for _, g := range gens {
